@@ -421,6 +421,13 @@ def gen_scenario(ctx, tag, kind, imgs, sizes, variant=None):
         i = s.op("o", op)
         j = s.op("t1", op); k = s.op("t2", op)
         s.pairs += [(i, j), (i, k)]
+    xwr_open = kind == "xwr" and (variant == "open" or (variant is None and r.random() < 0.25))
+    s.xwr_open = xwr_open
+    if xwr_open:
+        for op in ["begin"] + ["add %s %s" % (hexs(r.choice([b"user.a", b"user.open", b"trusted.x"])), hexs(r.choice([b"", b"1", b"open value " * 3]))) for _ in range(r.randint(0, 2))]:
+            i = s.op("o", op)
+            j = s.op("t1", op); k = s.op("t2", op)
+            s.pairs += [(i, j), (i, k)]
     if kind == "data" and not damaged and ending:
         for op in CACHE_ENDINGS[ending]:
             i = s.op("o", op)
@@ -458,6 +465,11 @@ def gen_scenario(ctx, tag, kind, imgs, sizes, variant=None):
         s.ctl("grab c"); extra["c"] += 1
     alive = {"o": True, "c": True}
     env_dropped = False
+    if kind == "xwr" and xwr_open:
+        # the copy was made inside an open begin/end block: both go on recording into it and close it
+        for op in ["add %s %s" % (hexs(b"user.late"), hexs(b"v" * r.choice([1, 9, 30]))), "end"]:
+            ic = s.op("c", op); j = s.op("t2", op); io = s.op("o", op); k = s.op("t1", op)
+            s.pairs += [(ic, j), (io, k), (ic, io)]
     if kind == "xwr":
         # same recorded state: original, copy and twins must flush the same bytes
         i = s.op("o", "flush"); j = s.op("c", "flush"); k = s.op("t1", "flush"); l = s.op("t2", "flush")
@@ -492,11 +504,25 @@ def gen_scenario(ctx, tag, kind, imgs, sizes, variant=None):
     if kind == "xwr":
         post = post + ["flush"] * 2
     # events: operations and releases, interleaved; both release orders arise from the shuffle
-    events = [("op", x) for x in post] + [("drop", "o"), ("drop", "c")] + ([("env", None)] if kind in ENV_KINDS and r.random() < 0.5 else [])
+    # one event = one operation; xattr writer: one complete begin … end block (or a flush) on one object — a block is never
+    # split between original and copy, nothing is copied or released inside an open block (except the deliberate `open` variant)
+    groups, cur = [], []
+    for x in post:
+        cur.append(x)
+        if kind != "xwr" or x in ("end", "flush"):
+            groups.append(cur); cur = []
+    if cur:
+        groups.append(cur)
+    events = [("op", g) for g in groups] + [("drop", "o"), ("drop", "c")] + ([("env", None)] if kind in ENV_KINDS and r.random() < 0.5 else [])
+    # a copy of the copy takes the copy's place; one more copy of either is made and released while both are alive
+    if r.random() < 0.35:
+        events.insert(r.randint(0, len(groups)), ("ctl", "recopy"))
+    if r.random() < 0.35:
+        events.insert(r.randint(0, len(groups)), ("ctl", "copydrop " + r.choice("oc")))
     if r.random() < 0.7:
         # keep the releases towards the end most of the time, so that most operations see both objects alive
-        ops_e = [e for e in events if e[0] == "op"]
-        rest = [e for e in events if e[0] != "op"]
+        ops_e = [e for e in events if e[0] in ("op", "ctl")]
+        rest = [e for e in events if e[0] not in ("op", "ctl")]
         r.shuffle(rest)
         cut = r.randint(len(ops_e) // 2, len(ops_e))
         tail = ops_e[cut:] + rest
@@ -510,12 +536,18 @@ def gen_scenario(ctx, tag, kind, imgs, sizes, variant=None):
             if not who:
                 continue
             t = r.choice(who)
-            i = s.op(t, x, marked(x))
-            j = s.op("t1" if t == "o" else "t2", x)
-            s.pairs.append((i, j))
-            if not env_dropped:
-                s.fresh(x, i)
-            s.ctl("views")
+            for y in x:
+                i = s.op(t, y, marked(y))
+                j = s.op("t1" if t == "o" else "t2", y)
+                s.pairs.append((i, j))
+                if not env_dropped:
+                    s.fresh(y, i)
+                s.ctl("views")
+        elif ev == "ctl":
+            # (after `dropenv` the shared file / compressor live only through the readers: still copyable)
+            if alive["c"] and (extra["c"] == 0 if x == "recopy" else alive[x.split()[1]]):
+                s.ctl(x)
+                s.ctl("views")
         elif ev == "drop":
             while extra[x] > 0:
                 s.ctl("ungrab " + x); extra[x] -= 1
@@ -636,7 +668,7 @@ def run_model(ctx, mode, scenarios, shapes, fail_at=None):
     return res
 
 
-CTL = ("copy", "failcopy", "drop", "grab", "ungrab", "rcs", "dropenv")
+CTL = ("copy", "failcopy", "drop", "grab", "ungrab", "rcs", "dropenv", "recopy", "copydrop")
 TARGETS = ("o", "c", "t1", "t2")
 
 
@@ -1515,7 +1547,7 @@ def run(ctx):
     for e in CACHE_ENDINGS:
         for k in ikeys:
             plan += [("data", "cache:%s:%s" % (e, k))] * (1 if ctx.quick() else 6)
-    plan += [("xwr", "shared")] * (6 if ctx.quick() else 80)
+    plan += [("xwr", "shared")] * (6 if ctx.quick() else 80) + [("xwr", "open")] * (3 if ctx.quick() else 40)
     # corpus first
     cdir = vlib.CORPUS / "C19"
     corpus = []
@@ -1610,10 +1642,13 @@ def run(ctx):
     nontrivial = sum(1 for s, hr in zs(allsc, allres) if any(l.startswith("copy ok") or l.startswith("copy NULL") for l in hr[0]))
     copies_ok = sum(1 for s, hr in zs(allsc, allres) if any(l.startswith("copy ok") for l in hr[0]))
     copies_null = sum(1 for s, hr in zs(allsc, allres) if any(l.startswith("copy NULL") for l in hr[0]))
+    extra_copies = {"copy of a copy (recopy)": sum(1 for _, hr in zs(scs, hres) for a_ in hr[0] if a_.startswith("recopy ok")),
+                    "further copy while original and copy are alive (copydrop)": sum(1 for _, hr in zs(scs, hres) for a_ in hr[0] if a_.startswith("copydrop ok")),
+                    "xattr-writer copy inside an open begin/end block": sum(1 for s_, hr in zs(scs, hres) if getattr(s_, "xwr_open", False) and hr[1][0] == "ok" and any(a_.startswith("copy ok") for a_ in hr[0]))}
     refused = {k: sum(1 for s_, hr in zs(scs, hres) if s_.kind == k and hr[1][0] == "ok" and any(l.startswith("copy NULL") for l in hr[0])) for k in ("wfile", "nocopy")}
     # floors: a part that evaluated nothing is a failure of the check, not a pass
-    for name, val in (("sqfs_copy of a file opened for writing (hook refuses)", refused["wfile"]), ("sqfs_copy of an object whose copy hook is NULL", refused["nocopy"]), ("table answers", ttotal), ("successful copies", copies_ok), ("failed copies", copies_null), ("twin comparisons", pair_checks),
-                      ("view relations", view_checks), ("comparisons with a directory reader without history", fresh_checks)):
+    for name, val in list(extra_copies.items()) + [("sqfs_copy of a file opened for writing (hook refuses)", refused["wfile"]), ("sqfs_copy of an object whose copy hook is NULL", refused["nocopy"]), ("table answers", ttotal), ("successful copies", copies_ok), ("failed copies", copies_null), ("twin comparisons", pair_checks),
+                      ("view relations", view_checks), ("comparisons with a directory reader without history", fresh_checks)]:
         if val <= 0:
             floor_problems.append("the check evaluated no %s" % name)
     if floor_problems:
@@ -1634,7 +1669,7 @@ def run(ctx):
                 "non-trivial = scenario that reached sqfs_copy" % (
                     ", ".join("%s/%d" % sp for sp in specs), MANYX),
         "scenarios": len(allsc), "alloc_failure_variants": len(fscs), "twin_comparisons": pair_checks, "fresh_reader_comparisons": fresh_checks, "view_relations_checked": view_checks,
-        "copies_ok": copies_ok, "copies_null": copies_null, "successful_operations_on_copies": okcount,
+        "copies_ok": copies_ok, "copies_null": copies_null, "successful_operations_on_copies": okcount, "further_copies": extra_copies, "refused_copies": refused,
         "compressor_copies_by_mode_and_configuration": {"%s %s" % k: v for k, v in sorted(comp_modes.items())},
         "table_answers_compared_with_model": ttotal, "copystate": cstat, "descriptions_vs_probe": dfacts,
         "scenarios_per_kind": stats["kinds"], "real_outcomes": stats["outcomes"], "classified": stats["findings"],
